@@ -127,6 +127,34 @@ class SimPool:
                 pass
         return res, data
 
+    def run_session(self, invocations, hashseed=0, want_events=False, step_budget=None, event_cap=None):
+        """All invocations of a session run back to back in one worker (one simulated machine)."""
+        if hashseed not in self.queues:
+            raise HarnessError("no worker for hashseed %r" % (hashseed,))
+        with self.lock:
+            base = self.counter
+            self.counter += len(invocations)
+            self.runs += len(invocations)
+        paths = [os.path.join(self.scratch, "out%07d.bin" % (base + 1 + k)) for k in range(len(invocations))]
+        req = {"op": "session", "invocations": invocations, "out_paths": paths, "want_events": want_events}
+        if step_budget:
+            req["step_budget"] = step_budget
+        if event_cap:
+            req["event_cap"] = event_cap
+        q = self.queues[hashseed]
+        w = q.get()
+        try:
+            results = w.call(req)
+        finally:
+            q.put(w)
+        out = []
+        for res, pth in zip(results, paths):
+            with open(pth, "rb") as f:
+                data = f.read()
+            os.unlink(pth)
+            out.append((res, data))
+        return out
+
     def close(self):
         for w in self.all:
             w.close()
